@@ -4,6 +4,14 @@
 // Seeks on exhausted iterators over keys deleted by several earlier batches) run against the five KV stores usable under the upsidedown index, obtained through
 // registry.KVStoreConstructorByName.  Every value the implementation returns is recorded in the
 // Coq case; the oracle is the Coq model/spec (Kv/Adapter.v, Kv/AdapterCorr.v).
+//
+// Store configurations: the five stores in their default form, and moss over a LOWER-LEVEL store
+// (mossLowerLevelStoreName = gtreap / boltdb / goleveldb through llStore in moss/lower.go, or the
+// native mossStore) with mossLowerLevelMaxBatchSize unset / 1 / 2 / 3 / 4 / 7.  In those the
+// sequences contain `sync` steps (the harness polls moss' collection statistics until no dirty
+// segment is left, i.e. the persister has handed everything to the lower level) and `reopen` steps
+// (store closed and opened again over the same lower-level files); reads go through readers opened
+// before and after the flush.
 package main
 
 import (
@@ -13,6 +21,7 @@ import (
 	"math"
 	"os"
 	"sort"
+	"strings"
 	"sync/atomic"
 	"time"
 
@@ -21,7 +30,7 @@ import (
 	_ "github.com/blevesearch/bleve/v2/index/upsidedown/store/goleveldb"
 	"github.com/blevesearch/bleve/v2/index/upsidedown/store/gtreap"
 	_ "github.com/blevesearch/bleve/v2/index/upsidedown/store/metrics"
-	_ "github.com/blevesearch/bleve/v2/index/upsidedown/store/moss"
+	bmoss "github.com/blevesearch/bleve/v2/index/upsidedown/store/moss"
 	"github.com/blevesearch/bleve/v2/registry"
 	index "github.com/blevesearch/bleve_index_api"
 	store "github.com/blevesearch/upsidedown_store_api"
@@ -60,16 +69,20 @@ type Read struct {
 }
 
 type Step struct {
-	T    string `json:"t"` // batch | open | read | close
+	T    string `json:"t"` // batch | open | read | close | sync | reopen
 	Ops  []Op   `json:"ops,omitempty"`
 	Rid  int    `json:"rid,omitempty"`
 	Read *Read  `json:"read,omitempty"`
 }
 
 type In struct {
-	Kind  string `json:"kind"`  // seq | pfxff | mget | dup | policy | bigdup | bseek | mopfull | moppartial
+	Kind  string `json:"kind"`  // seq | pfxff | mget | dup | policy | bigdup | bseek | persist | llmix | mopfull | moppartial
 	Store string `json:"store"` // gtreap | boltdb | goleveldb | moss | metrics
 	Mo    string `json:"mo"`    // cat | catnp | udc
+	// store configuration (moss only): lower-level store ("" = none, moss purely in memory) and
+	// mossLowerLevelMaxBatchSize (0 = not set)
+	LL    string `json:"ll,omitempty"` // gtreap | boltdb | goleveldb | mossStore
+	LLMax int    `json:"llmax,omitempty"`
 	Steps []Step `json:"steps,omitempty"`
 	// merge-operator cases
 	Key      []byte   `json:"key,omitempty"`
@@ -90,6 +103,20 @@ func storeCode(s string) int {
 	}
 	return -1
 }
+
+var lowerLevels = []string{"gtreap", "boltdb", "goleveldb", "mossStore"}
+
+func llCode(s string) int {
+	for i, n := range lowerLevels {
+		if n == s {
+			return i
+		}
+	}
+	return -1
+}
+
+// does the lower level keep its contents when the store is closed?
+func llPersistent(ll string) bool { return ll == "boltdb" || ll == "goleveldb" || ll == "mossStore" }
 
 func moCode(s string) int {
 	switch s {
@@ -173,7 +200,16 @@ type genCtx struct {
 	r     *vrand.R
 	store string
 	mo    string
+	ll    string // moss lower level ("" = none)
 	pool  [][]byte
+}
+
+// bbolt rejects empty keys ("key required"), as a store and as moss' lower level alike
+func (g *genCtx) minKeyLen() int {
+	if g.store == "boltdb" || g.ll == "boltdb" {
+		return 1
+	}
+	return 0
 }
 
 func le64(v int64) []byte {
@@ -192,10 +228,7 @@ func (g *genCtx) makePool() { g.makePoolN(g.r.Range(4, 11)) }
 
 func (g *genCtx) makePoolN(n int) {
 	r := g.r
-	minLen := 0
-	if g.store == "boltdb" {
-		minLen = 1 // bbolt rejects empty keys ("key required")
-	}
+	minLen := g.minKeyLen()
 	for len(g.pool) < n {
 		var k []byte
 		if len(g.pool) > 0 && r.Chance(1, 2) {
@@ -519,8 +552,35 @@ func (g *genCtx) finish(steps []Step, open []int, nextRid int) []Step {
 	return steps
 }
 
-func genSeq(r *vrand.R, storeName, mo string) In {
-	g := &genCtx{r: r, store: storeName, mo: mo}
+func genSeq(r *vrand.R, storeName, mo string) In { return genSeqLL(r, storeName, mo, "", 0) }
+
+// the dump every case ends with: whole-store range iteration
+func dumpRead() *Read {
+	return &Read{T: "range", SNil: true, ENil: true, Prog: []IOp{{T: "drain"}}}
+}
+
+// persisting configurations: a sync after about every second batch (so that later reads are served
+// partly or wholly by the lower-level store, through readers opened before and after the flush) and,
+// where the lower level keeps its files, at the end a sync + close + reopen + dump on a fresh reader.
+// All readers are closed by then (finish).
+func withPersistence(r *vrand.R, ll string, steps []Step) []Step {
+	var out []Step
+	for _, st := range steps {
+		out = append(out, st)
+		if st.T == "batch" && r.Bool() {
+			out = append(out, Step{T: "sync"})
+		}
+	}
+	if llPersistent(ll) {
+		const rid = 9000
+		out = append(out, Step{T: "sync"}, Step{T: "reopen"}, Step{T: "open", Rid: rid},
+			Step{T: "read", Rid: rid, Read: dumpRead()}, Step{T: "close", Rid: rid})
+	}
+	return out
+}
+
+func genSeqLL(r *vrand.R, storeName, mo, ll string, llmax int) In {
+	g := &genCtx{r: r, store: storeName, mo: mo, ll: ll}
 	g.makePool()
 	var steps []Step
 	var open []int
@@ -551,7 +611,11 @@ func genSeq(r *vrand.R, storeName, mo string) In {
 			}
 		}
 	}
-	return In{Kind: "seq", Store: storeName, Mo: mo, Steps: g.finish(steps, open, nextRid)}
+	steps = g.finish(steps, open, nextRid)
+	if ll != "" {
+		steps = withPersistence(r, ll, steps)
+	}
+	return In{Kind: "seq", Store: storeName, Mo: mo, LL: ll, LLMax: llmax, Steps: steps}
 }
 
 // small cases: a few batches, then ONE read of the special kind on a fresh reader
@@ -947,7 +1011,11 @@ func (g *genCtx) backRead(deleted, live [][]byte, focus []byte) *Read {
 //	2 (2/5): base data spread over 1-3 batches, deletions mostly of small keys, other keys set /
 //	         merged / brought back in the deleting batches
 func genBackSeek(r *vrand.R, storeName, mo string) In {
-	g := &genCtx{r: r, store: storeName, mo: mo}
+	return genBackSeekLL(r, storeName, mo, "", 0)
+}
+
+func genBackSeekLL(r *vrand.R, storeName, mo, ll string, llmax int) In {
+	g := &genCtx{r: r, store: storeName, mo: mo, ll: ll}
 	g.makePoolN(r.Range(6, 12))
 	sort.Slice(g.pool, func(i, j int) bool { return bytes.Compare(g.pool[i], g.pool[j]) < 0 })
 	uniq := g.pool[:0]
@@ -1101,10 +1169,299 @@ func genBackSeek(r *vrand.R, storeName, mo string) In {
 		steps = append(steps, Step{T: "batch", Ops: ops})
 		steps = append(steps, Step{T: "read", Rid: newest, Read: g.backRead(deleted, liveKeys(), nil)})
 	}
-	return In{Kind: "bseek", Store: storeName, Mo: mo, Steps: g.finish(steps, open, nextRid)}
+	steps = g.finish(steps, open, nextRid)
+	if ll != "" {
+		steps = withPersistence(r, ll, steps)
+	}
+	return In{Kind: "bseek", Store: storeName, Mo: mo, LL: ll, LLMax: llmax, Steps: steps}
 }
 
+// ---------------------------------------------------------------- persisting configurations
+
+// batch sizes around the lower level's chunking: k*max-1, k*max, k*max+1 for k = 1..3 (max = 0, no
+// chunking: a spread of small sizes), cut to the number of keys available
+func boundarySizes(max, avail int) (exact, near []int) {
+	if max <= 0 {
+		for _, n := range []int{1, 2, 3, 4, 5, 7, 8, 9, 12} {
+			if n <= avail {
+				exact = append(exact, n)
+			}
+		}
+		return exact, exact
+	}
+	for k := 1; k <= 3; k++ {
+		if k*max <= avail {
+			exact = append(exact, k*max)
+		}
+		for _, n := range []int{k*max - 1, k*max + 1} {
+			if n >= 1 && n <= avail {
+				near = append(near, n)
+			}
+		}
+	}
+	return exact, near
+}
+
+// persist: moss over a lower-level store.  12-24 distinct keys; 2-4 rounds of
+//
+//	[open a reader]  batch of n DISTINCT keys (sets of new / changed values, deletes mostly of live
+//	keys, single merges; n an exact multiple of mossLowerLevelMaxBatchSize or one off)
+//	[a second batch]  [dump through a fresh reader before the flush]  sync
+//	fresh reader: dump, Get of keys of the batch, one random read; every reader opened earlier: dump
+//	and now and then a random read
+//
+// at least one round has an exact-multiple batch alone in front of its sync.  Persistent lower levels:
+// everything closed, reopen, dump + Gets on a fresh reader, sometimes one more batch + sync + dump.
+// No key occurs twice in a batch.
+func genPersist(r *vrand.R, ll string, llmax int, mo string) In {
+	g := &genCtx{r: r, store: "moss", mo: mo, ll: ll}
+	want := 3*llmax + 3
+	if want < 12 {
+		want = 12
+	}
+	if want > 24 {
+		want = 24
+	}
+	seen := map[string]bool{}
+	for len(g.pool) < want {
+		var k []byte
+		if mo == "udc" {
+			k = append([]byte{'d', byte(r.Intn(2)), 0}, randKey(r, 0, 2)...)
+		} else {
+			k = randKey(r, g.minKeyLen(), 3)
+		}
+		if !seen[string(k)] {
+			seen[string(k)] = true
+			g.pool = append(g.pool, k)
+		}
+	}
+	exact, near := boundarySizes(llmax, len(g.pool))
+	cur := map[string][]byte{} // the generator's idea of what is live (steers op choice only)
+	live := func(k []byte) bool { _, ok := cur[string(k)]; return ok }
+	batch := func(n int) []Op {
+		keys := append([][]byte{}, g.pool...)
+		vrand.Shuffle(r, keys)
+		var ops []Op
+		for _, k := range keys[:n] {
+			c := r.Intn(6)
+			switch {
+			case live(k) && c < 3:
+				ops = append(ops, Op{T: "del", K: k})
+				delete(cur, string(k))
+			case c == 5:
+				ops = append(ops, Op{T: "merge", K: k, V: g.operand()})
+				cur[string(k)] = nil
+			case !live(k) && c == 4:
+				ops = append(ops, Op{T: "del", K: k}) // tombstone for an absent key
+			default:
+				var prev [][]byte
+				if v := cur[string(k)]; v != nil {
+					prev = append(prev, v)
+				}
+				v := g.otherValue(prev)
+				ops = append(ops, Op{T: "set", K: k, V: v})
+				cur[string(k)] = v
+			}
+		}
+		return ops
+	}
+	var steps []Step
+	var open []int
+	nextRid := 1
+	fresh := func(reads ...*Read) {
+		steps = append(steps, Step{T: "open", Rid: nextRid})
+		for _, rd := range reads {
+			steps = append(steps, Step{T: "read", Rid: nextRid, Read: rd})
+		}
+		steps = append(steps, Step{T: "close", Rid: nextRid})
+		nextRid++
+	}
+	rounds := r.Range(2, 4)
+	forced := r.Intn(rounds) // this round: exact multiple, alone, synced
+	for i := 0; i < rounds; i++ {
+		if len(open) < 2 && r.Chance(2, 3) {
+			steps = append(steps, Step{T: "open", Rid: nextRid})
+			open = append(open, nextRid)
+			nextRid++
+		}
+		sizes := near
+		if i == forced || r.Bool() || len(near) == 0 {
+			sizes = exact
+		}
+		ops := batch(vrand.Pick(r, sizes))
+		steps = append(steps, Step{T: "batch", Ops: ops})
+		touched := ops
+		if i != forced && r.Chance(1, 4) {
+			ops2 := batch(r.Range(1, len(g.pool)/2))
+			steps = append(steps, Step{T: "batch", Ops: ops2})
+			touched = append(append([]Op{}, ops...), ops2...)
+		}
+		if r.Chance(1, 3) {
+			fresh(dumpRead())
+		}
+		if i == forced || r.Chance(5, 6) {
+			steps = append(steps, Step{T: "sync"})
+		}
+		reads := []*Read{dumpRead()}
+		for n := r.Range(1, 2); n > 0; n-- {
+			reads = append(reads, &Read{T: "get", K: vrand.Pick(r, touched).K})
+		}
+		reads = append(reads, g.read())
+		fresh(reads...)
+		for _, rid := range open {
+			steps = append(steps, Step{T: "read", Rid: rid, Read: dumpRead()})
+			if r.Chance(1, 3) {
+				steps = append(steps, Step{T: "read", Rid: rid, Read: g.read()})
+			}
+		}
+		if len(open) > 0 && r.Chance(1, 3) {
+			j := r.Intn(len(open))
+			steps = append(steps, Step{T: "close", Rid: open[j]})
+			open = append(open[:j], open[j+1:]...)
+		}
+	}
+	steps = g.finish(steps, open, nextRid)
+	nextRid++
+	if llPersistent(ll) {
+		steps = append(steps, Step{T: "sync"}, Step{T: "reopen"})
+		reads := []*Read{dumpRead()}
+		for n := r.Range(1, 3); n > 0; n-- {
+			reads = append(reads, &Read{T: "get", K: g.poolKey()})
+		}
+		reads = append(reads, g.read())
+		fresh(reads...)
+		if r.Bool() {
+			// the reopened store keeps working: old reader, batch, flush, both readers
+			steps = append(steps, Step{T: "open", Rid: nextRid})
+			old := nextRid
+			nextRid++
+			steps = append(steps, Step{T: "batch", Ops: batch(vrand.Pick(r, exact))}, Step{T: "sync"})
+			fresh(dumpRead())
+			steps = append(steps, Step{T: "read", Rid: old, Read: dumpRead()}, Step{T: "close", Rid: old})
+			if r.Bool() {
+				steps = append(steps, Step{T: "reopen"})
+				fresh(dumpRead())
+			}
+		}
+	}
+	return In{Kind: "persist", Store: "moss", Mo: mo, LL: ll, LLMax: llmax, Steps: steps}
+}
+
+// llmix: iteration over BOTH layers of moss at once.  8-14 distinct keys; one or two batches flushed
+// to the lower level; one or two more batches (sets of further keys, deletes of flushed ones, merges)
+// left in memory; a reader opened on that state and driven through a dump, Gets and 2-3 iterators
+// under Seek/Next programs (backward Seeks over the deleted keys included); then the flush happens
+// under the open reader and it is read again, next to a fresh one.
+func genLLMix(r *vrand.R, ll string, llmax int, mo string) In {
+	g := &genCtx{r: r, store: "moss", mo: mo, ll: ll}
+	seen := map[string]bool{}
+	for want := r.Range(8, 14); len(g.pool) < want; {
+		var k []byte
+		if mo == "udc" {
+			k = append([]byte{'d', byte(r.Intn(2)), 0}, randKey(r, 0, 2)...)
+		} else {
+			k = randKey(r, g.minKeyLen(), 3)
+		}
+		if !seen[string(k)] {
+			seen[string(k)] = true
+			g.pool = append(g.pool, k)
+		}
+	}
+	sort.Slice(g.pool, func(i, j int) bool { return bytes.Compare(g.pool[i], g.pool[j]) < 0 })
+	live := map[string]bool{}
+	liveKeys := func() [][]byte {
+		var l [][]byte
+		for _, k := range g.pool {
+			if live[string(k)] {
+				l = append(l, k)
+			}
+		}
+		return l
+	}
+	var deleted [][]byte
+	batch := func(n int, delShare int) []Op { // n distinct keys; delShare of 6 slots delete a live key
+		keys := append([][]byte{}, g.pool...)
+		vrand.Shuffle(r, keys)
+		var ops []Op
+		for _, k := range keys[:n] {
+			switch c := r.Intn(6); {
+			case live[string(k)] && c < delShare:
+				ops = append(ops, Op{T: "del", K: k})
+				live[string(k)] = false
+				deleted = append(deleted, k)
+			case c == 5:
+				ops = append(ops, Op{T: "merge", K: k, V: g.operand()})
+				live[string(k)] = true
+			default:
+				ops = append(ops, Op{T: "set", K: k, V: g.value()})
+				live[string(k)] = true
+			}
+		}
+		return ops
+	}
+	var steps []Step
+	for i := r.Range(1, 2); i > 0; i-- {
+		steps = append(steps, Step{T: "batch", Ops: batch(r.Range(len(g.pool)/2, len(g.pool)-1), 1)}, Step{T: "sync"})
+	}
+	for i := r.Range(1, 2); i > 0; i-- {
+		steps = append(steps, Step{T: "batch", Ops: batch(r.Range(1, 4), 3)})
+	}
+	const rid = 1
+	steps = append(steps, Step{T: "open", Rid: rid}, Step{T: "read", Rid: rid, Read: dumpRead()})
+	for _, k := range deleted {
+		if r.Bool() {
+			steps = append(steps, Step{T: "read", Rid: rid, Read: &Read{T: "get", K: k}})
+		}
+	}
+	for n := r.Range(2, 3); n > 0; n-- {
+		if r.Bool() {
+			steps = append(steps, Step{T: "read", Rid: rid, Read: g.backRead(deleted, liveKeys(), nil)})
+		} else {
+			steps = append(steps, Step{T: "read", Rid: rid, Read: g.read()})
+		}
+	}
+	steps = append(steps, Step{T: "sync"}, Step{T: "read", Rid: rid, Read: dumpRead()},
+		Step{T: "read", Rid: rid, Read: g.backRead(deleted, liveKeys(), nil)})
+	return In{Kind: "llmix", Store: "moss", Mo: mo, LL: ll, LLMax: llmax, Steps: g.finish(steps, []int{rid}, rid+1)}
+}
+
+// the configurations of moss over a lower level: every registry store with every chunk size, and the
+// native mossStore (which does not chunk)
+type layout struct {
+	ll  string
+	max int
+}
+
+func persistLayouts() []layout {
+	var ls []layout
+	for _, ll := range []string{"gtreap", "boltdb", "goleveldb"} {
+		for _, m := range []int{0, 1, 2, 3, 4, 7} {
+			ls = append(ls, layout{ll, m})
+		}
+	}
+	return append(ls, layout{"mossStore", 0})
+}
+
+// the cases of the persisting configurations are three times the size of the others: they are spread
+// evenly over the run (and so over the shards evaluated in parallel) instead of filling the last ones
 func gen(f vh.Flags, r *vrand.R, emit func(In)) {
+	var base, extra []In
+	genDefault(f, r, func(in In) { base = append(base, in) })
+	genLayouts(f, r, func(in In) { extra = append(extra, in) })
+	next := 0
+	for i, in := range base {
+		emit(in)
+		for next < len(extra) && next*len(base) < (i+1)*len(extra) {
+			emit(extra[next])
+			next++
+		}
+	}
+	for ; next < len(extra); next++ {
+		emit(extra[next])
+	}
+}
+
+func genDefault(f vh.Flags, r *vrand.R, emit func(In)) {
 	per := f.N(60, 3000) // general sequences per store
 	for _, s := range stores {
 		for i := 0; i < per; i++ {
@@ -1172,12 +1529,99 @@ func gen(f vh.Flags, r *vrand.R, emit func(In)) {
 	}
 }
 
+func genLayouts(f vh.Flags, r *vrand.R, emit func(In)) {
+	// moss over a lower-level store (19 configurations): batch sizes around the lower level's chunk
+	// size with waits for the flush, and the general / backward-seek streams with flushes interleaved
+	mos := []string{"cat", "udc", "catnp"}
+	np, ns, nb := f.N(3, 150), f.N(1, 60), f.N(1, 60)
+	for li, l := range persistLayouts() {
+		for i := 0; i < np; i++ {
+			emit(genPersist(r.Fork(), l.ll, l.max, mos[(li+i)%3]))
+		}
+		for i := 0; i < ns; i++ {
+			emit(genSeqLL(r.Fork(), "moss", mos[(li+i+1)%3], l.ll, l.max))
+		}
+		for i := 0; i < nb; i++ {
+			emit(genBackSeekLL(r.Fork(), "moss", mos[(li+i+2)%3], l.ll, l.max))
+		}
+	}
+	nx := f.N(1, 60)
+	for li, l := range persistLayouts() {
+		for i := 0; i < nx; i++ {
+			emit(genLLMix(r.Fork(), l.ll, l.max, mos[(li+i)%3]))
+		}
+	}
+}
+
 // ---------------------------------------------------------------- execution
 
 var pathCtr int64
 
+func newPath() string {
+	return fmt.Sprintf("/tmp/vh_c15_%d_%d", os.Getpid(), atomic.AddInt64(&pathCtr, 1))
+}
+
+// moss over a lower-level store; the lower level gets the options it would get as a store of its own
+// (moss hands its whole config down to it).  path = "" for the gtreap lower level.
+func openMossLL(mo store.MergeOperator, ll string, llmax int, path string) (store.KVStore, error) {
+	cfg := map[string]interface{}{"mossLowerLevelStoreName": ll, "path": path}
+	if llmax > 0 {
+		cfg["mossLowerLevelMaxBatchSize"] = float64(llmax) // JSON number, as moss.New expects
+	}
+	switch ll {
+	case "gtreap":
+		cfg["path"] = ""
+	case "boltdb":
+		cfg["nosync"] = true
+		cfg["initialMmapSize"] = 1 << 24
+	case "goleveldb":
+		cfg["create_if_missing"] = true
+	case "mossStore":
+	default:
+		return nil, fmt.Errorf("unknown lower level %q", ll)
+	}
+	ctor := registry.KVStoreConstructorByName("moss")
+	if ctor == nil {
+		return nil, fmt.Errorf("no constructor for moss")
+	}
+	return ctor(mo, cfg)
+}
+
+// waits until moss' persister has handed every executed batch to the lower-level store: no segment
+// left in the dirty top / mid / base stacks (moss clears the base stack and installs the new
+// lower-level snapshot in one critical section, and Stats() reads under the same lock).  Progress
+// is polled, never assumed after a delay; the deadline only turns a persister that has stopped
+// making progress into a report.
+func waitPersisted(s store.KVStore) *vh.Direct {
+	ms, ok := s.(*bmoss.Store)
+	if !ok {
+		return &vh.Direct{Kind: "not-moss", Detail: fmt.Sprintf("moss constructor returned %T", s)}
+	}
+	deadline := time.Now().Add(150 * time.Second)
+	pause := 20 * time.Microsecond
+	for {
+		st, err := ms.Collection().Stats()
+		if err != nil {
+			return &vh.Direct{Kind: "stats-error", Detail: err.Error()}
+		}
+		if st.TotPersisterLowerLevelUpdateErr > 0 {
+			return &vh.Direct{Kind: "lower-level-update-error", Detail: fmt.Sprintf("moss persister: %d failed lower-level updates", st.TotPersisterLowerLevelUpdateErr)}
+		}
+		if st.CurDirtyOps == 0 && st.CurDirtySegments == 0 {
+			return nil
+		}
+		if time.Now().After(deadline) {
+			return &vh.Direct{Kind: "persist-stall", Detail: fmt.Sprintf("moss persister left %d dirty ops in %d segments (lower-level updates begun %d, ended %d)", st.CurDirtyOps, st.CurDirtySegments, st.TotPersisterLowerLevelUpdateBeg, st.TotPersisterLowerLevelUpdateEnd)}
+		}
+		time.Sleep(pause)
+		if pause < 2*time.Millisecond {
+			pause *= 2
+		}
+	}
+}
+
 func openStore(name string, mo store.MergeOperator) (store.KVStore, string, error) {
-	path := fmt.Sprintf("/tmp/vh_c15_%d_%d", os.Getpid(), atomic.AddInt64(&pathCtr, 1))
+	path := newPath()
 	cfg := map[string]interface{}{}
 	rm := ""
 	switch name {
@@ -1309,9 +1753,25 @@ func execSeq(in In) vh.Result {
 	var steps []cf.T
 	var direct *vh.Direct
 	batches, nonEmptyReads, staleReads, maxBatch := 0, 0, 0, 0
+	syncs, reopens, reopenRetries, readsAfterSync, readsAcrossSync, chunkedFlush := 0, 0, 0, 0, 0, false
+	lastBatchLen, batchesSinceSync := 0, 0
 	var fl iterFlags
-	d := vh.Guard(60*time.Second, "sequence on "+in.Store, func() {
-		s, rm, err := openStore(in.Store, moOf(in.Mo))
+	what, limit := "sequence on "+in.Store, 60*time.Second
+	if in.LL != "" {
+		res.Hist = append(res.Hist, "ll:"+in.LL, fmt.Sprintf("llmax:%d", in.LLMax))
+		what = fmt.Sprintf("sequence on moss over %s (max batch %d)", in.LL, in.LLMax)
+		limit = 300 * time.Second
+	}
+	d := vh.Guard(limit, what, func() {
+		var s store.KVStore
+		var rm string
+		var err error
+		if in.LL != "" {
+			rm = newPath()
+			s, err = openMossLL(moOf(in.Mo), in.LL, in.LLMax, rm)
+		} else {
+			s, rm, err = openStore(in.Store, moOf(in.Mo))
+		}
 		if rm != "" {
 			defer os.RemoveAll(rm)
 		}
@@ -1321,14 +1781,68 @@ func execSeq(in In) vh.Result {
 		}
 		readers := map[int]store.KVReader{}
 		openedAt := map[int]int{}
+		openedAtSync := map[int]int{}
 		defer func() {
 			for _, rd := range readers {
 				_ = rd.Close()
 			}
-			_ = s.Close()
+			if s != nil {
+				_ = s.Close()
+			}
 		}()
 		for _, st := range in.Steps {
 			switch st.T {
+			case "sync":
+				if in.LL == "" {
+					continue
+				}
+				if p := waitPersisted(s); p != nil {
+					direct = p
+					return
+				}
+				if in.LLMax > 0 && batchesSinceSync == 1 && lastBatchLen > 0 && lastBatchLen%in.LLMax == 0 {
+					chunkedFlush = true
+				}
+				batchesSinceSync = 0
+				syncs++
+				steps = append(steps, "SSync")
+			case "reopen":
+				if !llPersistent(in.LL) {
+					continue
+				}
+				for rid, rd := range readers {
+					_ = rd.Close()
+					delete(readers, rid)
+				}
+				err := s.Close()
+				s = nil
+				if err != nil {
+					direct = &vh.Direct{Kind: "close-error", Detail: err.Error()}
+					return
+				}
+				// mossStore: the closed store deletes a data file that compaction has made obsolete in a
+				// goroutine of its own, after Close has returned (moss store.go removeFileOnClose); an
+				// OpenStore that listed the file before and tries to remove it itself then fails with
+				// ENOENT.  That collision is moss' own, says nothing about the contents, and is over at
+				// the next attempt (the file is gone), so the open is repeated; any other error, or one
+				// that persists, is reported.
+				for deadline := time.Now().Add(60 * time.Second); ; {
+					s, err = openMossLL(moOf(in.Mo), in.LL, in.LLMax, rm)
+					if err == nil {
+						break
+					}
+					s = nil
+					if in.LL == "mossStore" && strings.Contains(err.Error(), "err: remove ") &&
+						strings.Contains(err.Error(), "no such file or directory") && time.Now().Before(deadline) {
+						reopenRetries++
+						time.Sleep(time.Millisecond)
+						continue
+					}
+					direct = &vh.Direct{Kind: "reopen-error", Detail: err.Error()}
+					return
+				}
+				reopens++
+				steps = append(steps, "SReopen")
 			case "batch":
 				w, err := s.Writer()
 				if err != nil {
@@ -1357,6 +1871,10 @@ func execSeq(in In) vh.Result {
 				if len(st.Ops) > maxBatch {
 					maxBatch = len(st.Ops)
 				}
+				if len(st.Ops) > 0 {
+					lastBatchLen = len(st.Ops)
+					batchesSinceSync++
+				}
 				err = w.ExecuteBatch(b)
 				_ = b.Close()
 				_ = w.Close()
@@ -1370,6 +1888,7 @@ func execSeq(in In) vh.Result {
 				}
 				readers[st.Rid] = rd
 				openedAt[st.Rid] = batches
+				openedAtSync[st.Rid] = syncs
 				steps = append(steps, cf.App("SOpen", cf.Int(st.Rid)))
 			case "close":
 				if rd := readers[st.Rid]; rd != nil {
@@ -1384,6 +1903,12 @@ func execSeq(in In) vh.Result {
 				}
 				if openedAt[st.Rid] < batches {
 					staleReads++
+				}
+				if syncs > 0 {
+					readsAfterSync++
+					if openedAtSync[st.Rid] < syncs {
+						readsAcrossSync++
+					}
 				}
 				q := st.Read
 				var term cf.T
@@ -1456,8 +1981,25 @@ func execSeq(in In) vh.Result {
 		res.Direct = direct
 		return res
 	}
-	res.Term = cf.App("CSeq", cf.Int(storeCode(in.Store)), cf.Int(moCode(in.Mo)), cf.List(steps))
-	res.Nontrivial = batches >= 1 && nonEmptyReads >= 1
+	if in.LL != "" {
+		res.Term = cf.App("CSeqCfg", cf.Int(storeCode(in.Store)), cf.Int(moCode(in.Mo)), cf.Int(llCode(in.LL)), cf.Int(in.LLMax), cf.List(steps))
+		res.Nontrivial = batches >= 1 && nonEmptyReads >= 1 && syncs >= 1 && readsAfterSync >= 1
+		if readsAcrossSync > 0 {
+			res.Hist = append(res.Hist, "read-on-reader-opened-before-flush")
+		}
+		if chunkedFlush {
+			res.Hist = append(res.Hist, "flush-of-exact-multiple-of-max-batch")
+		}
+		if reopens > 0 {
+			res.Hist = append(res.Hist, "reopened-over-lower-level")
+		}
+		if reopenRetries > 0 {
+			res.Hist = append(res.Hist, "reopen-repeated-after-deferred-file-removal")
+		}
+	} else {
+		res.Term = cf.App("CSeq", cf.Int(storeCode(in.Store)), cf.Int(moCode(in.Mo)), cf.List(steps))
+		res.Nontrivial = batches >= 1 && nonEmptyReads >= 1
+	}
 	if staleReads > 0 {
 		res.Hist = append(res.Hist, "reads-on-stale-reader")
 	}
@@ -1506,7 +2048,7 @@ func exec(in In) vh.Result {
 	case "mopfull", "moppartial":
 		return execMop(in)
 	}
-	if storeCode(in.Store) < 0 {
+	if storeCode(in.Store) < 0 || (in.LL != "" && (in.Store != "moss" || llCode(in.LL) < 0)) {
 		return vh.Result{Skip: true}
 	}
 	return execSeq(in)
@@ -1529,8 +2071,16 @@ func main() {
 			"bseek (6-12 keys written by 1-3 batches, then 2-4 batches each deleting one or two of them, mostly the smallest live ones, readers opened before / between / after; " +
 			"prefix and range iterators starting at or before deleted keys under programs that Seek backwards - to deleted keys, their truncations, the range start, nil - and Seek after exhaustion; all five stores, every batch holding each key once), " +
 			"mopfull/moppartial (upsidedown's merge operator called directly). " +
+			"Configurations: besides the five default ones, moss over a lower-level store - gtreap, boltdb (non-empty keys), goleveldb (llStore of moss/lower.go) each with mossLowerLevelMaxBatchSize unset, 1, 2, 3, 4, 7, and the native mossStore - 19 in all, each with: " +
+			"persist (12-24 distinct keys; 2-4 rounds of [reader opened] + a batch of distinct keys whose size is k*max or k*max+-1, k = 1..3 (sizes 1-12 where max is unset) + [second batch] + [dump before the flush] + sync " +
+			"(the harness polls the collection statistics until moss has no dirty segment, i.e. the persister has pushed everything to the lower level) + dump / Gets / a random read on a fresh reader + dumps on the readers opened before the flush; " +
+			"at least one exact-multiple batch is flushed alone; lower levels with files: close, reopen over the same files, dump, sometimes another batch + sync + dump + reopen), " +
+			"seq and bseek as above with a sync after about every second batch and a final sync + reopen + dump, " +
+			"llmix (8-14 distinct keys: one or two batches flushed, one or two left in memory - sets, deletes of flushed keys, merges -, a reader opened on the two layers: dump, Gets, 2-3 iterators under Seek/Next programs with backward Seeks, then the flush under the open reader and the same reader and a fresh one read again). " +
+			"No batch of these holds a key twice. " +
+			"A case of these configurations is non-trivial when, in addition, at least one sync completed and a read was made after it. " +
 			"A sequence case is non-trivial when at least one batch ran and at least one read returned something (a value, or an iterator position that was valid).",
-		ShardSize: 90, // 8 shards in the quick tier, evaluated in parallel
+		ShardSize: 90, // 10 shards in the quick tier, evaluated in parallel
 		Workers:   8,
 	}, gen, exec)
 }
